@@ -98,6 +98,11 @@ def gen_b58(repo):
         probs.append("GenB58: RADIX not found")
         v = 0
     out.append("Definition RADIX : N := %d.\n" % v)
+    m = re.search(r"const\s+REC\s*:\s*u64\s*=\s*(0x[0-9a-fA-F_]+|[0-9_]+)\s*;", src)
+    if m:
+        out.append("Definition REC : N := %d.\n" % int(m.group(1).replace("_", ""), 0))
+    else:
+        probs.append("GenB58: REC (reciprocal of RADIX) not found")
 
     m = re.search(r"const\s+B58_SIZE\s*:\s*usize\s*=\s*\(\$size\s*\*\s*(\d+)\)\s*/\s*(\d+)\s*;", src)
     if m:
@@ -163,3 +168,292 @@ def gen_b58(repo):
     hr = len(re.findall(r"\.is_human_readable\(\)", idsrc))
     out.append("Definition ID_HR_BRANCHES : N := %d.\n" % hr)
     return ("GenB58.v", "".join(out), probs)
+
+
+# ====================================================================== GenText.v (C32)
+
+ASCII_HELPERS = """(* u8::is_ascii_* as documented by the Rust standard library *)
+Definition in_range (lo hi b : N) : bool := (lo <=? b) && (b <=? hi).
+Definition is_ascii_uppercase (b : N) : bool := in_range 65 90 b.
+Definition is_ascii_lowercase (b : N) : bool := in_range 97 122 b.
+Definition is_ascii_alphabetic (b : N) : bool := is_ascii_uppercase b || is_ascii_lowercase b.
+Definition is_ascii_digit (b : N) : bool := in_range 48 57 b.
+Definition is_ascii_alphanumeric (b : N) : bool := is_ascii_alphabetic b || is_ascii_digit b.
+Definition is_ascii (b : N) : bool := b <=? 127.
+"""
+
+_ASCII_FNS = {"is_ascii_uppercase", "is_ascii_lowercase", "is_ascii_alphabetic", "is_ascii_digit",
+              "is_ascii_alphanumeric", "is_ascii"}
+
+
+def _byte_lit(tok):
+    """b'x' / b'\\n' / decimal → int, or None"""
+    m = re.fullmatch(r"b'(\\?.)'", tok)
+    if m:
+        c = m.group(1)
+        if len(c) == 1:
+            return ord(c)
+        return {"\\0": 0, "\\n": 10, "\\t": 9, "\\r": 13, "\\\\": 92, "\\'": 39}.get(c)
+    if re.fullmatch(r"\d+", tok):
+        return int(tok)
+    return None
+
+
+def _bool_expr(expr, var="b"):
+    """Translate a Rust boolean expression over one byte variable into a Coq bool term; None if not understood."""
+    toks = re.findall(r"b'\\?.'|\|\||&&|==|!=|<=|>=|[!()<>]|\.|\w+", expr)
+    if "".join(toks) != re.sub(r"\s+", "", expr):
+        return None
+    pos = [0]
+
+    def peek():
+        return toks[pos[0]] if pos[0] < len(toks) else None
+
+    def eat(t=None):
+        x = peek()
+        if t is not None and x != t:
+            raise ValueError("expected %s got %s" % (t, x))
+        pos[0] += 1
+        return x
+
+    def p_or():
+        l = p_and()
+        while peek() == "||":
+            eat()
+            l = "(%s || %s)" % (l, p_and())
+        return l
+
+    def p_and():
+        l = p_not()
+        while peek() == "&&":
+            eat()
+            l = "(%s && %s)" % (l, p_not())
+        return l
+
+    def p_not():
+        if peek() == "!":
+            eat()
+            return "(negb %s)" % p_not()
+        return p_atom()
+
+    def p_atom():
+        t = eat()
+        if t == "(":
+            e = p_or()
+            eat(")")
+            return e
+        if t == var or t == "*" + var:
+            if peek() == ".":
+                eat()
+                fn = eat()
+                eat("(")
+                eat(")")
+                if fn not in _ASCII_FNS:
+                    raise ValueError("unknown method " + fn)
+                return "(%s %s)" % (fn, var)
+            op = eat()
+            lit = _byte_lit(eat())
+            if lit is None:
+                raise ValueError("literal")
+            coq = {"==": "(%s =? %d)", "!=": "(negb (%s =? %d))", "<=": "(%s <=? %d)", ">=": "(%d <=? %s)",
+                   "<": "(%s <? %d)", ">": "(%d <? %s)"}[op]
+            return coq % ((lit, var) if op in (">=", ">") else (var, lit))
+        raise ValueError("atom " + str(t))
+    try:
+        e = p_or()
+        if pos[0] != len(toks):
+            return None
+        return e
+    except (ValueError, KeyError, TypeError):
+        return None
+
+
+def _match_brace(s, i, open_c="{", close_c="}"):
+    """s[i] is the opening bracket; returns index just past the matching close."""
+    depth = 0
+    j = i
+    while j < len(s):
+        if s[j] == open_c:
+            depth += 1
+        elif s[j] == close_c:
+            depth -= 1
+            if depth == 0:
+                return j + 1
+        j += 1
+    return len(s)
+
+
+def _strip_macro(body, name):
+    """Remove `name!( … )` invocations (balanced)."""
+    out = []
+    i = 0
+    pat = re.compile(r"\b%s!\s*\(" % re.escape(name))
+    while True:
+        m = pat.search(body, i)
+        if not m:
+            out.append(body[i:])
+            break
+        out.append(body[i:m.start()])
+        i = _match_brace(body, m.end() - 1, "(", ")")
+    return "".join(out)
+
+
+def _strip_strings(s):
+    return re.sub(r'"(?:[^"\\]|\\.)*"', '""', s)
+
+
+def _ctx_name(header):
+    h = header.strip()
+    h = re.sub(r"\bwhere\b.*$", "", h, flags=re.S)
+    if h.startswith("<"):
+        h = h[_match_brace(h, 0, "<", ">"):]
+    h = re.sub(r"\s+", " ", h).strip()
+    h = h.replace("serde::", "").replace("de::", "").replace("rkyv::bytecheck::", "").replace("core::", "")
+    return h
+
+
+def _functions(src):
+    """[(context, fn name, signature, body)] for every fn inside an impl block and every free fn."""
+    out = []
+    for m in re.finditer(r"\bimpl\b([^{;]*)\{", src):
+        end = _match_brace(src, m.end() - 1)
+        block = src[m.end():end - 1]
+        ctx = _ctx_name(m.group(1))
+        for f in re.finditer(r"\bfn\s+(\w+)\s*([^{;]*)\{", block):
+            bend = _match_brace(block, f.end() - 1)
+            pre = block[max(0, f.start() - 40):f.start()]
+            out.append((ctx, f.group(1), pre.split("\n")[-1] + " fn " + f.group(2), block[f.end():bend - 1]))
+    return out
+
+
+def _ret_type(sig):
+    if "->" not in sig:
+        return ""
+    return sig.split("->", 1)[1]
+
+
+def _is_ctor(sig, body):
+    ret = re.sub(r"\bwhere\b.*$", "", _ret_type(sig), flags=re.S)
+    ret = re.sub(r"Self::(Target|Err|Error)\b", "", ret)
+    if re.search(r"(?<![&\w])(Self|Text|Identifier)\b", ret):
+        return True
+    return bool(re.search(r"(?<![A-Za-z_])(Self|Text|Identifier)\s*\(", body))
+
+
+def _derives(src, struct):
+    m = re.search(r"((?:#\[[^\]]*\]\s*|///[^\n]*\n\s*)*)pub\s+struct\s+%s\b\s*\(([^;]*)\);" % struct, src)
+    if not m:
+        return None, None
+    ds = []
+    for a in re.finditer(r"#\[derive\((.*?)\)\]", m.group(1), re.S):
+        ds += [re.sub(r"\s+", "", x) for x in a.group(1).split(",") if x.strip()]
+    return ds, re.sub(r"\s+", " ", m.group(2)).strip()
+
+
+@gen.generator
+def gen_text(repro):
+    repo = repro
+    probs = []
+    out = [gen.HEADER, "Open Scope N_scope.\nOpen Scope bool_scope.\n", ASCII_HELPERS]
+    base = "crates/aranya-policy-text/src/"
+    raw = {}
+    for fn in sorted(os.listdir(os.path.join(repo, base))):
+        if fn.endswith(".rs"):
+            raw[fn] = gen.read(repo, base + fn)
+    src = {k: gen.strip_rust_comments(_strip_strings(v)) for k, v in raw.items()}
+    keep_doc = {k: re.sub(r"(?<!/)//(?!/)[^\n]*", "", v) for k, v in raw.items()}
+
+    # ---- repr.rs
+    rp = src.get("repr.rs", "")
+    m = re.search(r"const\s+MAX_INLINE\s*:\s*usize\s*=\s*([^;]+);", rp)
+    if m:
+        e = re.sub(r"(?:core::mem::|std::mem::|mem::)?size_of::<usize>\(\)", "USIZE_BYTES", m.group(1)).strip()
+        if re.fullmatch(r"[0-9\s\*\+\-\(\)]*(USIZE_BYTES[0-9\s\*\+\-\(\)]*)*", e):
+            out.append("(* repr.rs: const MAX_INLINE: usize = %s;  (64-bit target) *)\n" % m.group(1).strip())
+            out.append("Definition USIZE_BYTES : N := 8.\nDefinition MAX_INLINE : N := %s.\n" % e)
+        else:
+            probs.append("GenText: MAX_INLINE expression not understood: " + e)
+    else:
+        probs.append("GenText: MAX_INLINE not found")
+    m = re.search(r"enum\s+Repr\s*\{(.*?)\n\}", rp, re.S)
+    if m:
+        vs = gen.enum_variants(rp, "Repr") or []
+        out.append("Definition REPR_VARIANTS : list string := %s%%string.\n" % _coq_strs([v[0] for v in vs]))
+        ml = re.search(r"Inline\s*\{\s*bytes:\s*\[u8;\s*MAX_INLINE\]\s*,\s*len:\s*u(\d+)\s*\}", m.group(1))
+        if ml:
+            out.append("Definition INLINE_LEN_BITS : N := %s.\n" % ml.group(1))
+        else:
+            probs.append("GenText: Repr::Inline shape changed")
+    else:
+        probs.append("GenText: enum Repr not found")
+    m = re.search(r"fn\s+from_str\s*\(s:\s*&str\)\s*->\s*Self\s*\{\s*let\s+len\s*=\s*s\.len\(\);\s*if\s+len\s*(<=|<)\s*MAX_INLINE\s*\{", rp)
+    if m:
+        out.append("Definition FROM_STR_INLINE_LE : bool := %s.\n" % ("true" if m.group(1) == "<=" else "false"))
+    else:
+        probs.append("GenText: Repr::from_str shape changed")
+    # how Eq / Ord / Hash of Repr are defined: each must go through as_str on both sides
+    through = []
+    for tr, pat in (("PartialEq", r"self\.as_str\(\)\.eq\(other\.as_str\(\)\)"),
+                    ("Ord", r"self\.as_str\(\)\.cmp\(other\.as_str\(\)\)"),
+                    ("Hash", r"self\.as_str\(\)\.hash\(state\)")):
+        mm = re.search(r"impl\s+(?:core::\w+::)?%s\s+for\s+Repr\s*\{" % tr, rp)
+        ok = False
+        if mm:
+            blk = rp[mm.end():_match_brace(rp, mm.end() - 1)]
+            ok = re.search(pat, blk) is not None
+        through.append((tr, ok))
+    out.append("Definition REPR_CONTENT_IMPLS : list (string * bool) := [%s]%%string.\n"
+               % "; ".join("(%s, %s)" % (_coq_str(a), "true" if b else "false") for a, b in through))
+
+    # ---- validators
+    tx = src.get("text.rs", "")
+    idn = src.get("ident.rs", "")
+    m = re.search(r"\.bytes\(\)\.position\(\|b\|\s*(.*?)\)\s*\{", tx, re.S)
+    e = _bool_expr(m.group(1)) if m else None
+    if e:
+        out.append("(* text.rs Text::validate: s.bytes().position(|b| %s) *)\nDefinition text_bad (b : N) : bool := %s.\n"
+                   % (m.group(1).strip(), e))
+    else:
+        probs.append("GenText: Text::validate predicate not understood")
+    fns = {(c, f): (s, b) for (c, f, s, b) in _functions(idn)}
+    vb = fns.get(("Identifier", "validate"), ("", ""))[1]
+    m0 = re.search(r"if\s+s\.is_empty\(\)\s*\{\s*return\s+Err", vb)
+    out.append("Definition IDENT_REJECTS_EMPTY : bool := %s.\n" % ("true" if m0 else "false"))
+    m1 = re.search(r"if\s+let\s+Some\(index\)\s*=\s*NonZeroUsize::new\(i\)\s*\{\s*if\s+(.*?)\s*\{\s*return\s+Err", vb, re.S)
+    m2 = re.search(r"\}\s*else\s+if\s+(.*?)\s*\{\s*return\s+Err", vb, re.S)
+    e1 = _bool_expr(m1.group(1)) if m1 else None
+    e2 = _bool_expr(m2.group(1)) if m2 else None
+    if e1 and e2 and re.search(r"for\s*\(i,\s*b\)\s*in\s*s\.bytes\(\)\.enumerate\(\)", vb):
+        out.append("(* ident.rs Identifier::validate: tail bytes rejected when %s; first byte rejected when %s *)\n"
+                   % (re.sub(r"\s+", " ", m1.group(1)), re.sub(r"\s+", " ", m2.group(1))))
+        out.append("Definition ident_tail_bad (b : N) : bool := %s.\nDefinition ident_first_bad (b : N) : bool := %s.\n" % (e1, e2))
+    else:
+        probs.append("GenText: Identifier::validate shape not understood")
+
+    # ---- constructor ledger
+    entries = []
+    for fn in sorted(src):
+        for (ctx, name, sig, body) in _functions(src[fn]):
+            if fn in ("text.rs", "ident.rs"):
+                if not _is_ctor(sig, body):
+                    continue
+            elif not re.search(r"(?<![A-Za-z_])(Text|Identifier)\s*\(", body):
+                continue                     # other files: only direct tuple-struct constructions matter
+            core = _strip_macro(body, "debug_assert")
+            validated = bool(re.search(r"\bvalidate\s*\(", core) or re.search(r"\.parse\(\)", core))
+            entries.append((fn, "%s::%s" % (ctx, name), validated, "unsafe" in sig.split("fn")[0]))
+    out.append("(* every fn of the crate that returns or builds a Text / Identifier: (file, impl::fn, reaches validate, unsafe fn) *)\n")
+    out.append("Definition CTOR_LEDGER : list (string * string * bool * bool) := [\n  %s\n]%%string.\n"
+               % ";\n  ".join("(%s, %s, %s, %s)" % (_coq_str(a), _coq_str(b), "true" if c else "false", "true" if d else "false")
+                              for a, b, c, d in entries))
+    for st, key, fsrc in (("Text", "TEXT", keep_doc.get("text.rs", "")), ("Identifier", "IDENT", keep_doc.get("ident.rs", ""))):
+        ds, field = _derives(fsrc, st)
+        if ds is None:
+            probs.append("GenText: struct %s not found" % st)
+            continue
+        out.append("Definition %s_DERIVES : list string := %s%%string.\nDefinition %s_FIELD : string := %s%%string.\n"
+                   % (key, _coq_strs(ds), key, _coq_str(field)))
+    for st, key, fsrc in (("Text", "TEXT", tx), ("Identifier", "IDENT", idn)):
+        out.append("Definition %s_BYTECHECK_VERIFY : bool := %s.\n"
+                   % (key, "true" if re.search(r"#\[rkyv\(bytecheck\(verify\)\)\]\s*(?:#\[[^\]]*\]\s*)*pub\s+struct\s+%s\b" % st, fsrc) else "false"))
+    return ("GenText.v", "".join(out), probs)
